@@ -25,6 +25,7 @@ from xml.etree import ElementTree as ET
 
 from pybtex.database import Entry, Person
 from pybtex.database.input import BaseParser
+from pybtex.exceptions import PybtexError
 
 bibtexns = '{http://bibtexml.sf.net/}'
 
@@ -46,7 +47,10 @@ class Parser(BaseParser):
 
     def parse_string(self, value):
         # a str needs no encoding; an XML declaration inside it is overridden by the parser
-        tree = ET.fromstring(value)
+        try:
+            tree = ET.fromstring(value)
+        except ET.ParseError as error:
+            raise PybtexError('XML syntax error: {0}'.format(error), filename=self.filename)
         return self.parse_tree(tree)
 
     def parse_stream(self, stream):
@@ -54,8 +58,20 @@ class Parser(BaseParser):
 
     def parse_tree(self, tree):
         entries = tree.findall(bibtexns + 'entry')
-        self.data.add_entries(self.process_entry(entry) for entry in entries)
+        self.data.add_entries(self.checked_entry(entry) for entry in entries)
         return self.data
+
+    def checked_entry(self, entry):
+        try:
+            return self.process_entry(entry)
+        except (AttributeError, IndexError, TypeError, ValueError) as error:
+            # the document is XML but not BibTeXML: an entry without content
+            # or id, elements from another namespace, a person without text
+            # or with unknown name parts...
+            raise PybtexError(
+                'invalid BibTeXML structure ({0}: {1})'.format(type(error).__name__, error),
+                filename=self.filename,
+            )
 
     def process_entry(self, entry):
         def process_person(person_entry, role):
@@ -74,6 +90,8 @@ class Parser(BaseParser):
                     e.add_person(Person(**names), role)
 
         id_ = entry.get('id')
+        if id_ is None:
+            raise ValueError('entry without id')
         item = list(entry)[0]
         type = remove_ns(item.tag)
         e = Entry(type)
